@@ -96,3 +96,17 @@
 ; squares attacked by pawns of colour c standing on g
 (define-fun pawnAttSet ((c B8) (g BB)) BB (ite (= c #x00) (bvor (sNE g) (sNW g)) (bvor (sSE g) (sSW g))))
 (define-fun pawnPushSet ((c B8) (g BB)) BB (ite (= c #x00) (sN g) (sS g)))
+
+; ---------------------------------------------------------------- in-between squares
+; two squares are aligned when they share a file, a rank or a diagonal
+(define-fun aligned ((a Sq) (b Sq)) Bool
+  (or (= (fileOf a) (fileOf b)) (= (rankOf a) (rankOf b)) (= (absd (fileOf a) (fileOf b)) (absd (rankOf a) (rankOf b)))))
+(define-fun sgn8 ((x B8) (y B8)) B8 (ite (bvugt y x) #x01 (ite (bvult y x) #xff #x00)))   ; sign of y - x
+(define-fun cheb ((a Sq) (b Sq)) B8
+  (let ((df (absd (fileOf a) (fileOf b))) (dr (absd (rankOf a) (rankOf b)))) (ite (bvuge df dr) df dr)))
+; the squares strictly between a and b (empty unless aligned and at distance >= 2)
+(define-fun between ((a Sq) (b Sq)) BB
+  (let ((df (sgn8 (fileOf a) (fileOf b))) (dr (sgn8 (rankOf a) (rankOf b))) (n (cheb a b)) (al (aligned a b)))
+    (bvor (cell (and al (bvult #x01 n)) (stepSq a df dr #x01)) (cell (and al (bvult #x02 n)) (stepSq a df dr #x02))
+          (cell (and al (bvult #x03 n)) (stepSq a df dr #x03)) (cell (and al (bvult #x04 n)) (stepSq a df dr #x04))
+          (cell (and al (bvult #x05 n)) (stepSq a df dr #x05)) (cell (and al (bvult #x06 n)) (stepSq a df dr #x06)))))
